@@ -196,6 +196,14 @@ def run_discrete(cfg, pool):
             out["foot_region"] = [bool(o.containsPoint(Vector(*pool[i]))) for i in cfg["A"]]
             zz = float(o.z) if isinstance(o, R.PolygonalRegion) else None
             out["in_region"] = [f and (zz is None or pool[i][2] == zz) for f, i in zip(out["foot_region"], cfg["A"])]
+            # what PointSetRegion.intersect's sampler pre-filters its candidates with (observed, not recomputed)
+            if hasattr(o, "circumcircle"):
+                cc_, cr_ = o.circumcircle
+                out["circumcircle"] = [[float(t) for t in cc_], float(cr_)]
+            mg = curve_margin(o)
+            if mg is not None:
+                out["margin"] = mg
+                out["boundary_distance"] = [curve_boundary_distance(o, pool[i]) for i in cfg["A"]]
         if cfg["kind"] in ("gen_inter_poly", "gen_diff_poly"):
             # independent 3-D membership: xy inside the polygon (shapely) AND the height of the planar region
             o = build(cfg["spec"])
@@ -314,6 +322,76 @@ def combine(op, a, b):
     return (a and b) if op == "intersect" else ((a or b) if op == "union" else (a and not b))
 
 
+# ---- polygonised curves: discs and sectors are ALSO polygons (shapely buffer: inscribed n-gon with finite chords); kernel-built
+# compositions (polygon.intersect / union / difference) are made of that polygon while containsPoint / the primitive samplers use the
+# exact disc / cone.  The two differ in the slivers between arc and chords (thickness <= sagitta).  The property speaks about points
+# CLEAR of the boundary, so every oracle treats points within `margin` of the exact boundary of such an operand as undetermined.
+def curve_margin(o_):
+    """sagitta of the polygon ACTUALLY used for this disc / sector (largest angular gap between ring-consecutive arc vertices,
+    read off the region's polygon) + 1e-6; None for regions without polygonised curves"""
+    if not isinstance(o_, (R.CircularRegion, R.SectorRegion)):
+        return None
+    cx, cy, r = float(o_.center.x), float(o_.center.y), float(o_.radius)
+    geoms = getattr(o_.polygons, "geoms", [o_.polygons])
+    gap = 0.0
+    for g in geoms:
+        ring = [(c_[0], c_[1]) for c_ in g.exterior.coords]          # (coords carry z when the region is not at height 0)
+        for (x0, y0), (x1, y1) in zip(ring[:-1], ring[1:]):
+            if math.hypot(x0 - cx, y0 - cy) > 0.5 * r and math.hypot(x1 - cx, y1 - cy) > 0.5 * r:      # not the apex of a sector
+                d = abs(math.atan2(y1 - cy, x1 - cx) - math.atan2(y0 - cy, x0 - cx))
+                gap = max(gap, min(d, math.tau - d))
+    return r * (1.0 - math.cos(gap / 2.0)) + 1e-6
+
+
+def _seg_dist(px, py, ax, ay, bx, by):
+    dx, dy = bx - ax, by - ay
+    t = ((px - ax) * dx + (py - ay) * dy) / (dx * dx + dy * dy)
+    t = min(1.0, max(0.0, t))
+    return math.hypot(ax + t * dx - px, ay + t * dy - py)
+
+
+def curve_boundary_distance(o_, p):
+    """planar distance from p to the boundary of the EXACT disc / sector (own formulas: circle, two radial segments, arc)"""
+    cx, cy, r = float(o_.center.x), float(o_.center.y), float(o_.radius)
+    rho = math.hypot(p[0] - cx, p[1] - cy)
+    if isinstance(o_, R.CircularRegion):
+        return abs(rho - r)
+    h, ha = float(o_.heading), float(o_.angle) / 2.0
+    best = math.inf
+    for a in (h - ha, h + ha):                      # Scenic heading a = direction (-sin a, cos a)
+        best = min(best, _seg_dist(p[0], p[1], cx, cy, cx - r * math.sin(a), cy + r * math.cos(a)))
+    if rho > 0:
+        va = math.atan2(-(p[0] - cx), p[1] - cy) - h
+        va = (va + math.pi) % math.tau - math.pi
+        if abs(va) <= ha:
+            best = min(best, abs(rho - r))
+    return best
+
+
+class Margins:
+    """which operands are polygonised curves, their margins, and the near-boundary test"""
+    def __init__(self, operands):
+        self.items = [(o_, curve_margin(o_)) for o_ in operands]
+
+    def near(self, o_, m, p):
+        return m is not None and p[2] == float(o_.z) and curve_boundary_distance(o_, p) <= m
+
+    def near_any(self, p):
+        return any(self.near(o_, m, p) for o_, m in self.items)
+
+    def ring_area(self):
+        """area of the excluded rings (boundary length x 2 margin), to bound how many samples may be excluded"""
+        return sum(o_.polygons.length * 2 * m for o_, m in self.items if m is not None)
+
+
+def tri_combine(op, a, b):
+    """membership with undetermined operands (None = within the margin of that operand's boundary): acceptable when SOME
+    resolution of the undetermined answers puts the point in the composed set"""
+    ca = [a] if a is not None else [True, False]
+    cb_ = [b] if b is not None else [True, False]
+    return any(combine(op, x, y) for x in ca for y in cb_)
+
+
 def run_continuous(cfg):
     out = dict(id=cfg["id"])
     try:
@@ -343,7 +421,8 @@ def run_continuous(cfg):
         out["rejects"] = rejects
         out["logs"] = logs
         # membership of every sample in the operands (own containsPoint + explicit height for planar operands)
-        bad = []
+        bad, nbad, near_members = [], 0, 0
+        margins = Margins(operands if cfg["kind"] != "hist" else [])
         for p in pts:
             if cfg["kind"] == "hist":
                 # independent geometry (box frame + shapely), 1e-3 slack for the binary32 mesh kernel
@@ -360,22 +439,33 @@ def run_continuous(cfg):
                 continue
             v = Vector(*p)
             mem = []
-            for o_ in operands:
+            for o_, mg in margins.items:
                 if isinstance(o_, (R.PolylineRegion, R.PathRegion)):
                     m = float(o_.distanceTo(v)) <= 1e-7     # 1-D regions: membership within numerical tolerance
                 else:
                     m = bool(o_.containsPoint(v))
                 if isinstance(o_, R.PolygonalRegion) and p[2] != o_.z:
                     m = False
+                elif margins.near(o_, mg, p):
+                    m = None                                # within the polygonisation margin of a disc / sector boundary
                 mem.append(m)
-            ok = mem[0] if op is None else combine(op, mem[0], mem[1])
+            ok = (mem[0] is not False) if op is None else tri_combine(op, mem[0], mem[1])
+            if None in mem:
+                near_members += 1
+            if not ok:
+                nbad += 1
             if not ok and len(bad) < 3:
-                bad.append(dict(point=list(p), operand_membership=mem))
+                bad.append(dict(point=list(p), operand_membership=mem, margins=[mg for _, mg in margins.items]))
         out["bad_members"] = bad
-        out["nbad"] = sum(1 for _ in bad)
-        # chi^2 cells
+        out["nbad"] = nbad if cfg["kind"] != "hist" else len(bad)
+        out["near_members"] = near_members
+        # chi^2 cells.  Samples within the polygonisation margin of a disc / sector boundary are left out of the statistic (and counted):
+        # the cells are cut from the polygons, the primitive samplers use the exact curves, so such a sample may fall just outside
+        # the polygon's cells without being outside the region
         cells = None
         polys = [poly_of(o_) for o_ in operands]
+        all_pts = pts
+        pts = [p for p in all_pts if not margins.near_any(p)]
         if op is None:
             A = cfg["A"]
             if A["kind"] in ("rect", "circle", "sector", "polygon"):
@@ -398,6 +488,9 @@ def run_continuous(cfg):
             if layers:
                 cells = layer_cells(layers, pts, cfg.get("k", 6))
                 out["overlap_area"] = float((polys[0] & polys[1]).area)
+        if cells is not None:
+            cells["near_boundary"] = len(all_pts) - len(pts)
+            cells["ring_area"] = float(margins.ring_area())
         out["cells"] = cells
         out["size"] = float(reg.size) if getattr(reg, "size", None) is not None else None
     except RecursionError:
@@ -686,7 +779,7 @@ def planar_cells(poly, pts, k):
             outside += 1
             continue
         cnt[i * k + j] += 1
-    return dict(expected=exp, counts=cnt, outside=outside)
+    return dict(expected=exp, counts=cnt, outside=outside, area=float(total))
 
 
 def layer_cells(layers, pts, k):
@@ -712,7 +805,7 @@ def layer_cells(layers, pts, k):
                 break
         else:
             outside += 1
-    return dict(expected=exp, counts=cnt, outside=outside)
+    return dict(expected=exp, counts=cnt, outside=outside, area=float(total))
 
 
 def prism_cells(cfg, poly, op, pts):
